@@ -3,7 +3,7 @@ From Coq Require Import String.
 From Coq Require Import List NArith ZArith Bool.
 From Dials Require Export Base.Outcome Base.Runes Reflect.Ty Reflect.Ptrify Stack.Overlay
   Text.CaseConv Text.GoCamelSpec Text.ParseInt Text.Quote Text.Split Text.ParseText Sources.Flatten Sources.FlattenSpec
-  Sources.Env Sources.Flags Sources.FlagsDefaults.
+  Sources.Env Sources.TimeText Sources.Flags Sources.FlagsDefaults.
 From Dials Require Import Check.C11Check.
 Import ListNotations.
 Open Scope list_scope.
@@ -95,6 +95,7 @@ Definition law (k : fkind) (dflt : val) (ts : list str) : outcome val :=
   | FkFloat b => l <- omapL (parse_float b) ts ;; Ok (VFloat (last_of l 0%Z))
   | FkComplex b => l <- omapL (parse_complex b) ts ;; Ok (last_of l VNil)
   | FkDuration => l <- omapL parse_duration ts ;; Ok (VInt (last_of l 0%Z))
+  | FkTime => l <- omapL time_value ts ;; Ok (last_of l VNil)
   | FkText true => Ok (VText (last_of ts []))
   | FkText false => Ok dflt
   | FkIP => l <- omapL parse_ip ts ;; Ok (last_of l VNil)
